@@ -125,6 +125,9 @@ def handle (cmd : String) (fs : List String) : String :=
     let deps := if keys.isEmpty then [] else (ds.splitOn ";").map decodeStrList
     let df := (padTo deps.length keys).zip deps
     encodeStrList (getAllDependenciesDfs df (decodeStr name)) ++ "#" ++ encodeStrList (getAllDependencies df (decodeStr name))
+  | "gnuarg", [isC, rc, err] =>
+    let r : CheckResult := ⟨(rc.trimAscii.toString.toInt?).getD 0, [], decodeStr err⟩
+    boolStr (gnuHasArguments (isC == "1") r) ++ boolStr (reconfigureVerdict (gnuHasArguments (isC == "1")) id (fun (_ : Unit) => r) ())
   | "fs", [ops] => runFs (parseOps ops)
   | _, _ => "bad-op"
 
